@@ -245,6 +245,11 @@ func (m *Machine) execFrom(fr *Frame, b *ssa.BasicBlock, prev *ssa.BasicBlock) V
 			switch x := ins.(type) {
 			case *ssa.If:
 				c := m.get(fr, x.Cond).(*Term)
+				if j := m.tryMergeDiamond(fr, b, c); j != nil {
+					// arms executed speculatively, phis of the join set to ite terms
+					prev, b = nil, j
+					goto joined
+				}
 				if m.branch(c) {
 					next = b.Succs[0]
 				} else {
@@ -275,7 +280,209 @@ func (m *Machine) execFrom(fr *Frame, b *ssa.BasicBlock, prev *ssa.BasicBlock) V
 			panic("engine: block without terminator")
 		}
 		prev, b = b, next
+		continue
+	joined:
+		// continue at the join block after its phis (already assigned)
+		{
+			skip := 0
+			for _, ins := range b.Instrs {
+				if _, ok := ins.(*ssa.Phi); ok {
+					skip++
+				} else {
+					break
+				}
+			}
+			r, done := m.execBlockBody(fr, b, skip)
+			if done {
+				return r.val
+			}
+			prev, b = b, r.next
+			if r.joined != nil {
+				prev, b = nil, r.joined
+				goto joined
+			}
+		}
 	}
+}
+
+type blockResult struct {
+	val    Value
+	next   *ssa.BasicBlock
+	joined *ssa.BasicBlock
+}
+
+// execBlockBody runs the instructions of b from index start; returns (result, true) on return.
+func (m *Machine) execBlockBody(fr *Frame, b *ssa.BasicBlock, start int) (blockResult, bool) {
+	for _, ins := range b.Instrs[start:] {
+		m.path.steps++
+		if m.path.steps > m.cfg.MaxSteps {
+			panic(abortPath{"steps", fmt.Sprintf("more than %d instructions on one path", m.cfg.MaxSteps)})
+		}
+		switch x := ins.(type) {
+		case *ssa.If:
+			c := m.get(fr, x.Cond).(*Term)
+			if j := m.tryMergeDiamond(fr, b, c); j != nil {
+				return blockResult{joined: j}, false
+			}
+			if m.branch(c) {
+				return blockResult{next: b.Succs[0]}, false
+			}
+			return blockResult{next: b.Succs[1]}, false
+		case *ssa.Jump:
+			return blockResult{next: b.Succs[0]}, false
+		case *ssa.Return:
+			switch len(x.Results) {
+			case 0:
+				return blockResult{}, true
+			case 1:
+				return blockResult{val: m.get(fr, x.Results[0])}, true
+			}
+			tv := make(TupleVal, len(x.Results))
+			for i, r := range x.Results {
+				tv[i] = m.get(fr, r)
+			}
+			return blockResult{val: tv}, true
+		case *ssa.Panic:
+			v := m.get(fr, x.X)
+			panic(&goPanicVal{v: v, msg: "panic: " + m.describe(v), stack: m.stackNames()})
+		default:
+			m.exec(fr, ins)
+		}
+	}
+	panic("engine: block without terminator")
+}
+
+// safeArm reports whether block a consists only of side-effect-free, non-trapping value
+// instructions followed by a Jump.
+func safeArm(a *ssa.BasicBlock) bool {
+	if len(a.Preds) != 1 || len(a.Succs) != 1 {
+		return false
+	}
+	for i, ins := range a.Instrs {
+		if i == len(a.Instrs)-1 {
+			_, ok := ins.(*ssa.Jump)
+			return ok
+		}
+		switch x := ins.(type) {
+		case *ssa.DebugRef:
+		case *ssa.BinOp:
+			switch x.Op {
+			case token.QUO, token.REM:
+				return false
+			case token.SHL, token.SHR:
+				if isSigned(x.Y.Type()) {
+					return false
+				}
+			}
+			switch x.X.Type().Underlying().(type) {
+			case *types.Basic:
+			default:
+				return false
+			}
+			if bt, ok := x.X.Type().Underlying().(*types.Basic); ok && bt.Info()&(types.IsInteger|types.IsBoolean) == 0 {
+				return false
+			}
+		case *ssa.UnOp:
+			if x.Op == token.MUL || x.Op == token.ARROW {
+				return false
+			}
+		case *ssa.Convert:
+			if !isScalarT(x.X.Type()) || !isScalarT(x.Type()) {
+				return false
+			}
+		case *ssa.ChangeType:
+		default:
+			return false
+		}
+	}
+	return false
+}
+
+// tryMergeDiamond executes a pure triangle/diamond below the If of block b as ite terms.
+// Returns the join block (phis assigned) or nil when the shape does not apply.
+func (m *Machine) tryMergeDiamond(fr *Frame, b *ssa.BasicBlock, c *Term) *ssa.BasicBlock {
+	if c.IsConst() {
+		return nil
+	}
+	if _, ok := m.knownVal(c); ok {
+		return nil
+	}
+	if m.cfg.Opts["nodiamond"] == "1" {
+		return nil
+	}
+	s0, s1 := b.Succs[0], b.Succs[1]
+	var join *ssa.BasicBlock
+	var arms []*ssa.BasicBlock
+	switch {
+	case safeArm(s0) && s0.Succs[0] == s1:
+		join, arms = s1, []*ssa.BasicBlock{s0}
+	case safeArm(s1) && s1.Succs[0] == s0:
+		join, arms = s0, []*ssa.BasicBlock{s1}
+	case safeArm(s0) && safeArm(s1) && s0.Succs[0] == s1.Succs[0]:
+		join, arms = s0.Succs[0], []*ssa.BasicBlock{s0, s1}
+	default:
+		return nil
+	}
+	if join == b || join.Index <= b.Index {
+		return nil // back edge: keep loop accounting simple
+	}
+	// the join must only be entered from b / the arms
+	for _, p := range join.Preds {
+		if p != b && p != s0 && p != s1 {
+			return nil
+		}
+	}
+	// phis must be scalar
+	for _, ins := range join.Instrs {
+		phi, ok := ins.(*ssa.Phi)
+		if !ok {
+			break
+		}
+		if !isScalarT(phi.Type()) {
+			return nil
+		}
+	}
+	for _, a := range arms {
+		for _, ins := range a.Instrs[:len(a.Instrs)-1] {
+			m.exec(fr, ins)
+		}
+	}
+	// edge taken when c is true / false
+	edgeT, edgeF := s0, s1
+	if s0 == join {
+		edgeT = b
+	}
+	if s1 == join {
+		edgeF = b
+	}
+	idx := func(p *ssa.BasicBlock) int {
+		for i, q := range join.Preds {
+			if q == p {
+				return i
+			}
+		}
+		return -1
+	}
+	it, iff := idx(edgeT), idx(edgeF)
+	if it < 0 || iff < 0 || it == iff {
+		return nil
+	}
+	var vals []Value
+	var phis []*ssa.Phi
+	for _, ins := range join.Instrs {
+		phi, ok := ins.(*ssa.Phi)
+		if !ok {
+			break
+		}
+		vt := m.get(fr, phi.Edges[it]).(*Term)
+		vf := m.get(fr, phi.Edges[iff]).(*Term)
+		vals = append(vals, m.tt.Ite(c, vt, vf))
+		phis = append(phis, phi)
+	}
+	for i, phi := range phis {
+		fr.env[phi] = vals[i]
+	}
+	return join
 }
 
 func (m *Machine) describe(v Value) string {
